@@ -73,6 +73,14 @@ def close(got, ref, n):
   return core.close(got, ref, rtol=1e-5 * np.sqrt(n + 1.0), atol=1e-6)
 
 
+def fits(small, big):
+  """True when shape `small` broadcasts into shape `big` without enlarging it."""
+  try:
+    return np.broadcast_shapes(tuple(small), tuple(big)) == tuple(big)
+  except ValueError:
+    return False
+
+
 def digest(*arrays):
   import hashlib
   m = hashlib.sha256()
@@ -298,7 +306,7 @@ def judge(ctx, fam, kind, world, got, ref_results, n, wit, empty_kind=None):
     if base_cls != cls:
       ctx.count('cls:' + base_cls)
     w = None
-    if n == 0 and g.shape != ref.shape and np.broadcast_shapes(g.shape, ref.shape) == g.shape:
+    if n == 0 and g.shape != ref.shape and fits(ref.shape, g.shape):
       ref = np.broadcast_to(ref, g.shape)     # zero() of a per-position metric is a scalar: "the zero result (0)"
     if g.shape != ref.shape:
       key = f'{fam}/{kind}-result-shape'
@@ -318,7 +326,28 @@ def judge(ctx, fam, kind, world, got, ref_results, n, wit, empty_kind=None):
                 dict(wit, metric=name, metric_args=world.args[name], got=g))
 
 
+class OracleRaised(Exception):
+  pass
+
+
 def run_case(ctx, fedjax, jax, jnp, cd, world, rng, debug_case):
+  """One example set; an exception escaping the one-by-one oracle (real evaluate_example / merge) is itself a finding."""
+  try:
+    _run_case(ctx, fedjax, jax, jnp, cd, world, rng, debug_case)
+  except (core.Inconclusive, core.HarnessError):
+    raise
+  except Exception as e:  # pylint: disable=broad-except
+    frames = core.fedjax_frames(e)
+    if not frames:
+      raise
+    inner = frames[-1]
+    ctx.violation(f'oracle/one-by-one-merge-raises-{type(e).__name__}@{inner[0].split("/")[-1]}:{inner[2]}',
+                  f'evaluate_example / merge raised {type(e).__name__}: {str(e)[:200]}',
+                  {'world': world.describe, 'frames': [f'{f}:{l}:{n}' for f, l, n in frames[-6:]]})
+    ctx.case_done(None, klass=['oracle-raised'])
+
+
+def _run_case(ctx, fedjax, jax, jnp, cd, world, rng, debug_case):
   M = fedjax.metrics
   n = 0 if rng.rand() < 0.07 else int(rng.randint(1, 13))
   Y, P, Dm = world.make_examples(rng, n)
@@ -354,7 +383,7 @@ def run_case(ctx, fedjax, jax, jnp, cd, world, rng, debug_case):
         sums = {k: {fn: sums[k][fn] + f[k][fn] for fn in f[k]} for k in f}
     for name, st in ref_stat.items():
       ff = fields(st)
-      ok = all(np.broadcast_shapes(sums[name][fn].shape, ff[fn].shape) == ff[fn].shape and close(
+      ok = all(fits(sums[name][fn].shape, ff[fn].shape) and close(
           ff[fn], np.broadcast_to(sums[name][fn], ff[fn].shape), n) for fn in ff)
       ctx.check(ok, 'merge/fold-differs-from-field-sums', f'{name}: merged accum/weight are not the sums of the '
                 'single-example accum/weight', None if ok else dict(wit0, metric=name, merged=ff, sums=sums[name]))
@@ -446,13 +475,13 @@ def run_case(ctx, fedjax, jax, jnp, cd, world, rng, debug_case):
       if not r.ok:
         continue
       fg, fr = fields(r.value), fields(sub[name])
-      ok = all(np.broadcast_shapes(fr[f].shape, fg[f].shape) == fg[f].shape and close(
+      ok = all(fits(fr[f].shape, fg[f].shape) and close(
           fg[f], np.broadcast_to(fr[f], fg[f].shape), len(rows)) for f in fr) and type(r.value) is type(sub[name])
       ctx.check(ok, f'evalbatch/{kind}-statistic-differs-from-one-by-one-merge', f'{name}: evaluate_batch statistic '
                 'differs from the merge of its real rows', None if ok else dict(wit, got=fg, one_by_one=fr))
       res = np.asarray(r.value.result()).astype(np.float64)
       rr = np.asarray(sub[name].result()).astype(np.float64)
-      ok = not np.any(np.isnan(res)) and close(res, np.broadcast_to(rr, res.shape), len(rows))
+      ok = not np.any(np.isnan(res)) and fits(rr.shape, res.shape) and close(res, np.broadcast_to(rr, res.shape), len(rows))
       ctx.check(ok, f'evalbatch/{kind}-' + ('nan' if np.any(np.isnan(res)) else 'result-differs'),
                 f'{name}: evaluate_batch(...).result() differs', None if ok else dict(wit, got=res, one_by_one=rr))
 
@@ -478,7 +507,10 @@ def run_case(ctx, fedjax, jax, jnp, cd, world, rng, debug_case):
             if fx[f].shape != fy[f].shape or not np.array_equal(fx[f], fy[f]):
               return False
           else:
-            shp = np.broadcast_shapes(fx[f].shape, fy[f].shape)
+            try:
+              shp = np.broadcast_shapes(fx[f].shape, fy[f].shape)
+            except ValueError:
+              return False
             if not close(np.broadcast_to(fx[f], shp), np.broadcast_to(fy[f], shp), n):
               return False
         return True
@@ -535,7 +567,7 @@ def check_zero(ctx, world):
     ctx.check(type(z) is type(v[name]), 'zero/type', f'{name}: zero() is a {type(z).__name__}, evaluate_example returns '
               f'{type(v[name]).__name__}', wit)
     fv = fields(v[name])
-    ctx.check(all(np.broadcast_shapes(fz[f].shape, fv[f].shape) == fv[f].shape for f in fz if f in fv),
+    ctx.check(all(fits(fz[f].shape, fv[f].shape) for f in fz if f in fv),
               'zero/shape-not-broadcastable-into-statistic', f'{name}: zero() components do not broadcast into the '
               'single-example statistic', dict(wit, zero=fz, example_stat=fv))
     if a['class'] == 'ConfusionMatrix':
